@@ -82,7 +82,7 @@ CLAIMED = {
          'Decides the count-bookkeeping clauses; does not decide that the bytes denote exactly the pushed data in general.',
          'DESIGN.md §4 C08'),
  'C11': ('set comparison of the per-dialect keyword registries with the draft vocabularies; name binding keyword -> factory method -> validator class; use of reporter.error results over the CFG',
-         'Static registry/binding rules: each of the five dialect factories looks up every verdict-affecting keyword of its draft, every registered keyword is bound to the factory method and validator class of the same name, is_valid and validate evaluate the same tree, and every reporter.error() result is returned or tested against abort. Only structural necessary conditions of correct verdicts.',
+         'Static registry/binding rules: each of the five dialect factories looks up every verdict-affecting keyword of its draft, every registered keyword is bound to the factory method and validator class of the same name, is_valid and validate evaluate the same tree, and every reporter.error() result is returned or tested against abort. Only structural necessary conditions of correct verdicts. Also: annotations of a sub-schema that reported into a local error collector are merged only under a test of that collector (R11.5) and handed back to the caller by the caller\'s flags (R11.6).',
          'Decides registry completeness, wiring and abort propagation; does not decide the verdicts themselves.',
          'DESIGN.md §4 C11'),
 }
